@@ -133,7 +133,6 @@ Definition posix_subset : list opspec := [
   mk "pthread_cond_signal" 1 "myth_cond_signal_body" [P 0] None RDirect;
   mk "pthread_cond_broadcast" 1 "myth_cond_broadcast_body" [P 0] None RDirect;
   mk "pthread_cond_wait" 2 "myth_cond_wait_body" [P 0; P 1] None RDirect;
-  mk "pthread_cond_timedwait" 3 "myth_cond_timedwait_body" [P 0; P 1; P 2] None RDirect;
   mk "pthread_barrier_init" 3 "myth_barrier_init_body" [P 0; AXlate "pthread_barrierattr_to_myth" 1; P 2] None RDirect;
   mk "pthread_barrier_destroy" 1 "myth_barrier_destroy_body" [P 0] None RDirect;
   mk "pthread_barrier_wait" 1 "myth_barrier_wait_body" [P 0] None RBarrier;
@@ -152,6 +151,33 @@ Definition posix_subset : list opspec := [
   mk "usleep" 1 "myth_usleep_body" [P 0] None RDirect;
   mk "nanosleep" 2 "myth_nanosleep_body" [P 0; P 1] None RDirect
 ].
+
+(** Operations the library wraps only on platforms that still have them as functions.  pthread_yield: with
+    glibc >= 2.34 <pthread.h> turns a call of pthread_yield into a call of sched_yield (which is in the subset
+    above) and configure leaves HAVE_PTHREAD_YIELD undefined, so there is no __wrap_pthread_yield; where the
+    wrapper exists it must forward to the same body as sched_yield. *)
+Definition optional_subset : list opspec := [
+  mk "pthread_yield" 0 "myth_yield_body" [] None RDirect
+].
+
+(** Wrapped by the library but OUTSIDE the supported subset: the generated table has a row for each of them,
+    the checker does not look at it and nothing is claimed about them.  The reason is part of the record. *)
+Definition outside_subset : list (string * string) := [
+  ("pthread_cond_timedwait",
+   "the body myth_cond_timedwait_body is unimplemented() = assert(0) (src/myth_sync_func.h): any call aborts; never generated");
+  ("pthread_tryjoin_np", "GNU extension, not in the property's subset");
+  ("pthread_timedjoin_np", "GNU extension, not in the property's subset");
+  ("pthread_rwlock_*", "reader-writer locks are not in the property's subset");
+  ("pthread_cancel, pthread_setcancelstate, pthread_setcanceltype, pthread_testcancel", "answered ENOSYS / warning");
+  ("pthread_setschedparam, pthread_getschedparam, pthread_setschedprio, pthread_setaffinity_np, pthread_getaffinity_np, "
+   ++ "pthread_getname_np, pthread_setname_np, pthread_setconcurrency, pthread_kill, pthread_sigqueue, pthread_sigmask, "
+   ++ "pthread_getcpuclockid, pthread_mutex_getprioceiling, pthread_mutex_setprioceiling, pthread_mutex_consistent",
+   "answered ENOSYS / ENOENT with a non-conformance warning")
+].
+
+(** no operation is both claimed and declared outside *)
+Definition subset_disjoint_outside : bool :=
+  forallb (fun o => negb (existsb (fun p => String.eqb (fst p) (o_name o)) outside_subset)) (posix_subset ++ optional_subset).
 
 (** attribute objects stay the system's: these entry points pass through in both modes *)
 Definition passthrough_subset : list (string * nat) := [
@@ -278,6 +304,12 @@ Definition op_ok (K : wconsts) (t : list entry) (o : opspec) : bool :=
   | None => false
   end.
 
+Definition opt_ok (K : wconsts) (t : list entry) (o : opspec) : bool :=
+  match find_entry (o_name o) t with
+  | Some e => entry_ok K o e && Nat.eqb (count_entries (o_name o) t) 1
+  | None => true
+  end.
+
 Definition pass_entry_ok (n : string) (arity : nat) (e : entry) : bool :=
   Nat.eqb (e_arity e) arity &&
   negb (e_guarded e) &&
@@ -304,11 +336,13 @@ Definition consts_ok (K : wconsts) : bool :=
   negb (k_myth_serial K =? 0)%Z && negb (k_posix_serial K =? 0)%Z && negb (k_ebusy K =? 0)%Z.
 
 Definition wrap_table_ok (K : wconsts) (t : list entry) : bool :=
-  consts_ok K && forallb (op_ok K t) posix_subset && forallb (pass_ok t) passthrough_subset.
+  consts_ok K && forallb (op_ok K t) posix_subset && forallb (pass_ok t) passthrough_subset &&
+  forallb (opt_ok K t) optional_subset.
 
 Definition sizes_ok (sizes : list (string * Z * Z)) : bool := forallb (size_ok sizes) overlaid_types.
 
 (** diagnostics for the check: the names whose entry is rejected *)
 Definition failing (K : wconsts) (t : list entry) : list string :=
   map o_name (filter (fun o => negb (op_ok K t o)) posix_subset) ++
+  map o_name (filter (fun o => negb (opt_ok K t o)) optional_subset) ++
   map fst (filter (fun p => negb (pass_ok t p)) passthrough_subset).
